@@ -40,6 +40,25 @@ def thread_strategy(roles):
     })
 
 
+def race_strategy():
+    """two committers, one of them held up at the n-th operation on a lock of the storage (somewhere between its first
+    load and the end of its commit) while the other runs a whole transaction - the commit protocol's own critical
+    sections, one yield point at a time"""
+    from vlib import threadprog
+    locks_of = {'fs': ['FileStorage'], 'mapping': ['MappingStorage'], 'demo': ['DemoStorage', 'MappingStorage']}
+    one = st.sampled_from(threadprog.PLAIN).map(lambda n_: ['committer', [['write', n_], ['commit'], ['read', n_]]])
+
+    def mk(kind):
+        first = st.tuples(st.sampled_from(['release', 'release', 'acquire']), st.sampled_from(locks_of[kind]),
+                          st.integers(1, 16)).map(lambda t: ['%s:%s' % (t[0], t[1]), t[2], 0])
+        return st.fixed_dictionaries({
+            'mode': st.just('threads'), 'kind': st.just(kind),
+            'programs': st.tuples(one, one).map(list),
+            'schedule': first.map(lambda f: {'segments': [f, ['any', 100000, 0]]}),
+            'lines': st.just(False), 'warm': st.booleans(), 'packer': st.just(None)})
+    return st.sampled_from(['fs', 'mapping', 'demo']).flatmap(mk)
+
+
 def line_funcs():
     import sys
     import ZODB.Connection
@@ -95,7 +114,13 @@ def strategy(tier, weights='mixed'):
     seq = _seq_strategy(n, weights)
     # (an undoer is a committer whose transaction is written by the storage's undo and announced by the undo adapter)
     roles = ['committer', 'committer', 'reader', 'reader', 'undoer'] if weights == 'mixed' else ['committer']
-    return st.one_of(seq, seq, thread_strategy(roles), thread_strategy(roles))
+    if weights == 'mixed':
+        # one share of write-heavy programs (conflicting, retried and savepoint commits: what a failed commit leaves in
+        # the connection's cache is part of what the next transaction reads)
+        heavy = _seq_strategy(n, 'write-heavy')
+        return st.integers(0, 99).flatmap(lambda w: seq if w < 40 else heavy if w < 52 else race_strategy() if w < 58
+                                          else thread_strategy(roles))
+    return st.integers(0, 99).flatmap(lambda w: seq if w < 46 else race_strategy() if w < 54 else thread_strategy(roles))
 
 
 def _seq_strategy(n, weights):
